@@ -355,8 +355,9 @@ fn c06_case(ctx: &Ctx, st: &mut TState, idx: usize, case: &Case, fresh_every: us
         }
         fails.extend(hf);
     }
-    if fresh && idx % (fresh_every * 4) == 0 {
-        // the Game-level verdict
+    if (fresh && idx % (fresh_every * 4) == 0) || (legal.is_empty() && idx % 3 == 0) {
+        // the Game-level verdict (sampled; for every third finished position)
+        if legal.is_empty() { st.local.inc("game_level_verdicts_on_finished_positions"); }
         let mut game = Game::from_board(to_engine(p), 0);
         if (game.board().halfmove_clock() as u64) <= 20 {
             let e = game.check_game_over_for_current_turn();
@@ -392,7 +393,11 @@ pub fn c06(o: &Opts) -> i32 {
     }
     let mut rt = Rng::new(o.seed).fork(tag("c06-terminal"));
     let tries = if q { 150_000 } else { 1_500_000 };
-    for p in gen::terminal_with_pieces(&mut rt, tries, true) { if seen.insert(p.key()) { ctx.count("stalemates_where_the_stalemated_side_has_pieces", 1); cases.push(Case::setup(p, "stalemate-with-pieces")); } }
+    for p in gen::terminal_with_pieces(&mut rt, tries, true) { if seen.insert(p.key()) {
+        ctx.count("stalemates_where_the_stalemated_side_has_pieces", 1);
+        let fwd: i32 = if p.turn == Col::W { 8 } else { -8 };
+        if (0..64i32).any(|s| p.sq[s as usize] == Some((p.turn, Pc::P)) && (0..64).contains(&(s + fwd)) && p.sq[(s + fwd) as usize].is_none()) { ctx.count("stalemates_with_a_pinned_pawn_that_could_otherwise_advance", 1); }
+        cases.push(Case::setup(p, "stalemate-with-pieces")); } }
     for p in gen::terminal_with_pieces(&mut rt, tries / 4, false) { if seen.insert(p.key()) { cases.push(Case::setup(p, "mate-with-pieces")); } }
     for p in gen::lone_minor_mates(&mut rt, tries) { if seen.insert(p.key()) { ctx.count("positions_where_a_lone_minor_piece_mates", 1); cases.push(Case::setup(p, "lone-minor-mate")); } }
     shuffle_tail(&mut cases, gen::corpus().len(), o.seed);
